@@ -164,6 +164,17 @@ func c06Scenarios() []*GbnScenario {
 		if rng.Intn(3) == 0 {
 			sc.SendGap = [2]time.Duration{time.Duration(rng.Intn(2500)) * time.Millisecond, time.Duration(rng.Intn(2500)) * time.Millisecond}
 		}
+		switch rng.Intn(6) {
+		case 0:
+			// the two ends are configured independently: different static resend timeouts
+			a := []time.Duration{250 * time.Millisecond, 400 * time.Millisecond, time.Second, 1500 * time.Millisecond, 3 * time.Second}
+			sc.StaticEP = [2]time.Duration{a[rng.Intn(len(a))], a[rng.Intn(len(a))]}
+		case 1:
+			// large windows: occupancy arithmetic beyond 127
+			sc.N = []uint8{128, 200, 254}[rng.Intn(3)]
+			sc.Msgs[0] = sizes(40 + rng.Intn(260))
+			sc.SendGap = [2]time.Duration{}
+		}
 		switch rng.Intn(5) {
 		case 0:
 			sc.HsTimeout = 2 * time.Second
@@ -237,7 +248,7 @@ func TestC06(t *testing.T) {
 		if len(sc.Name) > 4 && sc.Name[:4] == "tail" {
 			class = "tail-loss"
 		}
-		r.Case(sc.Name, faulty, fmt.Sprintf("%s/n=%d/ka=%v/static=%v/hs=%v", class, sc.N, sc.PingNs > 0, sc.Static, sc.HsTimeout))
+		r.Case(sc.Name, faulty, fmt.Sprintf("%s/n=%d/ka=%v/static=%v/hs=%v/asym=%v", class, sc.N, sc.PingNs > 0, sc.Static, sc.HsTimeout, sc.StaticEP != [2]time.Duration{}))
 		// an accepted message is delivered within `bound` of (acceptance, end of faults)
 		bound := 60*time.Second + 100*sc.Latency
 		switch {
